@@ -16,7 +16,7 @@ from ..astutil import dotted, norm, walk_local
 from ..core import Ctx, PropSpec, Unsupported
 from ..extract import where
 from ..harness import Harness, cursor
-from ..interp import Raised
+from ..interp import pub, Raised
 
 CMP = "xtce/comparisons.py"
 REL = {"__eq__": operator.eq, "__ne__": operator.ne, "__lt__": operator.lt, "__gt__": operator.gt,
@@ -181,6 +181,38 @@ def declared_cases(ctx: Ctx):
         ctx.unknown("R6.xml", site, str(e))
 
 
+    # the selector attribute is an xs:boolean: true | false | 1 | 0 (and absent = true)
+    site = f"{CMP}::Comparison.from_xml::useCalibratedValue spellings"
+    try:
+        hx = X.harness(ctx.prog)
+        X.set_ns_state(hx, None, {})
+        bad = None
+        pkt = hx.packet(b"", {"P": hx.val("Float", 20.0, 7)})          # calibrated 20.0, raw 7
+        for attr, cal in ((None, True), ("true", True), ("false", False), ("1", True), ("0", False)):
+            a = {"parameterRef": "P", "value": "7", "comparisonOperator": "=="}
+            if attr is not None:
+                a["useCalibratedValue"] = attr
+            k, got = hx.outcome("comparisons.Comparison.from_xml(el).evaluate(pkt)", "xtce/encodings.py", el=make_elem("Comparison", a), pkt=pkt)
+            want = not cal
+            if k != "ok" or got is not want:
+                bad = (f"<Comparison parameterRef=P value=7 useCalibratedValue={attr!r}> with P calibrated 20.0 / raw 7: {got!r}; the document selects the "
+                       f"{'calibrated' if cal else 'raw'} value, so the relation is {want}")
+                break
+            ref = {"parameterRef": "P"}
+            if attr is not None:
+                ref["useCalibratedValue"] = attr
+            cel = make_elem("Condition", children=[make_elem("ParameterInstanceRef", ref), make_elem("ComparisonOperator", text="=="),
+                                                    make_elem("Value", text="7")])
+            k, got = hx.outcome("comparisons.Condition.from_xml(el).evaluate(pkt)", "xtce/encodings.py", el=cel, pkt=pkt)
+            if k != "ok" or got is not want:
+                bad = (f"<Condition> with <ParameterInstanceRef parameterRef=P useCalibratedValue={attr!r}> == 7, P calibrated 20.0 / raw 7: {got!r}"
+                       f"{' (raised)' if k != 'ok' else ''}; the relation is {want}")
+                break
+        ctx.decide(bad is None, "R6.xml", site, "", bad or "", where=where(fi, fi.node))
+    except (Unsupported, Raised) as e:
+        ctx.unknown("R6.xml", site, str(e))
+
+
 def condition_cases(ctx: Ctx, h: Harness):
     fi = ctx.prog.func(f"{CMP}::Condition.evaluate")
     pairs = [("Int", "Int"), ("Int", "Float"), ("Float", "Int"), ("Float", "Float"), ("Str", "Str"), ("Bool", "Int")]
@@ -225,6 +257,28 @@ def condition_cases(ctx: Ctx, h: Harness):
                     want = REL[dun](lv if lcal else lraw, conv(lit))
                     if k != "ok" or not _truth(got) or got != want:
                         bad = (f"Condition(L {sp} {lit!r}) with L={lv!r}/raw {lraw!r} (calibrated={lcal}) gives {got!r}"
+                               f"{' (raised)' if k != 'ok' else ''}; the relation is {want}")
+                        break
+            except Unsupported as e:
+                ctx.unknown("R6.cond", site, str(e))
+                continue
+            ctx.decide(bad is None, "R6.cond", site, "", bad or "", where=where(fi, fi.node))
+    # fixed right-hand value given as an object (the constructor takes Any): interpreted in the type of the left value
+    OBJ_LITS = {"Int": [2.0, True, 0, -1, 5], "Float": [3, 2.5, 0, True, 0.30000000000000004], "Str": [1, 2.5]}
+    for lk in ("Int", "Float", "Str"):
+        vals, _lits, conv = KINDS[lk]
+        for sp, dun in _spellings(ctx)[:6] if len(_spellings(ctx)) > 6 else _spellings(ctx):
+            site = f"{fi.key}::{lk}-vs-literal object::{sp}"
+            bad = None
+            try:
+                for lv, lit, lcal in itertools.product(vals, OBJ_LITS[lk], (True, False)):
+                    lraw = _other(lk, lv)
+                    pkt = h.packet(b"", {"L": h.val(lk, lv, lraw)})
+                    k, got = h.outcome("Condition('L', sp, right_value=lit, left_use_calibrated_value=lc, "
+                                       "right_use_calibrated_value=False).evaluate(pkt)", CMP, sp=sp, lit=lit, lc=lcal, pkt=pkt)
+                    want = REL[dun](lv if lcal else lraw, conv(lit))
+                    if k != "ok" or not _truth(got) or got != want:
+                        bad = (f"Condition(L {sp} {lit!r}) (literal given as {type(lit).__name__}) with L={lv!r}/raw {lraw!r} (calibrated={lcal}) gives {got!r}"
                                f"{' (raised)' if k != 'ok' else ''}; the relation is {want}")
                         break
             except Unsupported as e:
@@ -387,7 +441,7 @@ def consumers(ctx: Ctx, h: Harness):
                     pkt = h.packet(b"AAAAAAAA", {"ONE": h.val("Int", 1)})
                     k, got = h.outcome(f"{cls}({arg}=[{lk}]).parse_value(pkt)", ENC, pkt=pkt)
                     if k == "ok":
-                        got = cursor(h, pkt.attrs["raw_data"])
+                        got = cursor(h, pub(pkt, "raw_data"))
                 if k != "ok" or got != want:
                     bad = (f"{cls}: lookup values {vals} with entries matching {[bool(x) for x in m]} gives length {got!r}; "
                            f"the first matching entry has value {want}")
@@ -531,7 +585,8 @@ SPEC = PropSpec(
                  "four selector combinations; BooleanExpression truth tables for every AND/OR tree up to the size "
                  "bound (all assignments); DiscreteLookup incl. falsy lookup values. Results must be the bool "
                  "objects True/False. Does not decide literal coercion for bytes values."
-                 ' R6.xml: criteria as declared in a document keep their literal exactly as written (blank padding, TRUE/False labels); R6.e2: the second end-to-end document of C01, also with DEBUG logging switched on.'),
+                 ' R6.xml: criteria as declared in a document keep their literal exactly as written (blank padding, TRUE/False labels); R6.e2: the second end-to-end document of C01, also with DEBUG logging switched on.'
+                 ' R6.e3: the hand-written document of R1.e3 (zero-padded decimal literals, two comparisons on one parameter in one list).'),
     rule_doc=("R6.1 one obligation per spelling; R6.cmp per (value kind, spelling) over all (value, literal, selector) "
               "combinations; R6.cond per (kind pair, spelling); R6.bool per tree shape over all assignments; "
               "R6.lookup; R6.2 per evaluator."),
